@@ -1,1 +1,85 @@
-(* below *)
+(* C05 - the reported temperature variance is the first-order propagation of all its inputs.  Statements only.
+   Gen/GenVarTermsQ.v and Gen/GenVarTermsR.v are REGENERATED from src/dtscalibration/dts_accessor.py on every run. *)
+From Coq Require Import List QArith String Reals.
+Import ListNotations.
+From Coquelicot Require Import Coquelicot.
+Require Import DTS.Base.WLS DTS.Base.Quad DTS.Model.Layout DTS.Gen.GenVarTermsQ DTS.Proofs.VarPropP.
+Require DTS.Gen.GenVarTermsR DTS.Proofs.DerivP.
+Local Open Scope string_scope.
+
+(* T21 (over Q, for ANY number of acting splices and any symmetric covariance): the term lists of the source sum to
+   T_st^2 s_st + T_ast^2 s_ast + J' Cov J, where the named covariance blocks are what get_params_from_pval_double_ended
+   extracts from p_cov and J lists the generated sensitivities for exactly the parameters the temperature depends on *)
+Theorem C05_tmpf_var_is_propagation cov (cov_sym : forall a b, (cov a b == cov b a)%Q) i t act inact v :
+  named_blocks_de cov i t act inact v ->
+  (total (de_var_fw_dict_terms v) ==
+   de_T_st_fw v * de_T_st_fw v * v "s_st" + de_T_ast_fw v * de_T_ast_fw v * v "s_ast" + quad cov (J_fw i t act v))%Q.
+Proof. exact (var_fw_is_propagation cov cov_sym i t act inact v). Qed.
+Theorem C05_tmpb_var_is_propagation cov (cov_sym : forall a b, (cov a b == cov b a)%Q) i t act inact v :
+  named_blocks_de cov i t act inact v ->
+  (total (de_var_bw_dict_terms v) ==
+   de_T_rst_bw v * de_T_rst_bw v * v "s_rst" + de_T_rast_bw v * de_T_rast_bw v * v "s_rast" + quad cov (J_bw i t inact v))%Q.
+Proof. exact (var_bw_is_propagation cov cov_sym i t act inact v). Qed.
+Theorem C05_tmpw_var_is_propagation cov (cov_sym : forall a b, (cov a b == cov b a)%Q) i t act inact v :
+  named_blocks_de cov i t act inact v ->
+  (total (de_var_w_dict_terms v) ==
+   de_T_st_w v * de_T_st_w v * v "s_st" + de_T_ast_w v * de_T_ast_w v * v "s_ast" +
+   de_T_rst_w v * de_T_rst_w v * v "s_rst" + de_T_rast_w v * de_T_rast_w v * v "s_rast" + quad cov (J_w i t act inact v))%Q.
+Proof. exact (var_w_is_propagation cov cov_sym i t act inact v). Qed.
+Theorem C05_single_ended_var_is_propagation cov (cov_sym : forall a b, (cov a b == cov b a)%Q) t act v :
+  named_blocks_se_free cov t act v ->
+  (total (se_var_fw_dict_terms v ++ se_var_fw_dict_terms_free_alpha v) ==
+   se_T_st_fw v * se_T_st_fw v * v "s_st" + se_T_ast_fw v * se_T_ast_fw v * v "s_ast" + quad cov (J_se_free t act v))%Q.
+Proof. exact (var_se_free_is_propagation cov cov_sym t act v). Qed.
+Theorem C05_single_ended_fixed_alpha_var_is_propagation cov (cov_sym : forall a b, (cov a b == cov b a)%Q) i t act v :
+  named_blocks_se_fixed cov i t act v ->
+  (total (se_var_fw_dict_terms v) ==
+   se_T_st_fw v * se_T_st_fw v * v "s_st" + se_T_ast_fw v * se_T_ast_fw v * v "s_ast" + quad cov (J_se_fixed i t act v))%Q.
+Proof. exact (var_se_fixed_is_propagation cov cov_sym i t act v). Qed.
+
+(* T20 (over R, Coquelicot): the generated sensitivities are the partial derivatives of the temperature equation with
+   respect to gamma, both intensities, df/c, alpha and the total splice loss - forward, backward, and d/d(dalpha) *)
+Section T20.
+Import DTS.Gen.GenVarTermsR DTS.Proofs.DerivP.
+Local Open Scope R_scope.
+Theorem C05_forward_sensitivities_are_derivatives (v : string -> R) (c alpha ta : R) :
+  v "gamma" <> 0 -> 0 < v "st" -> 0 < v "ast" -> ln (v "st" / v "ast") + c + alpha + ta <> 0 ->
+  v "tmpf" = Tfw (v "gamma") (v "st") (v "ast") c alpha ta ->
+  is_derive (fun g => Tfw g (v "st") (v "ast") c alpha ta) (v "gamma") (de_T_gamma_fw v) /\
+  is_derive (fun s => Tfw (v "gamma") s (v "ast") c alpha ta) (v "st") (de_T_st_fw v) /\
+  is_derive (fun a => Tfw (v "gamma") (v "st") a c alpha ta) (v "ast") (de_T_ast_fw v) /\
+  is_derive (fun d => Tfw (v "gamma") (v "st") (v "ast") d alpha ta) c (de_T_df_fw v) /\
+  is_derive (fun a => Tfw (v "gamma") (v "st") (v "ast") c a ta) alpha (de_T_alpha_fw v) /\
+  is_derive (fun t => Tfw (v "gamma") (v "st") (v "ast") c alpha t) ta (de_T_ta_fw v).
+Proof. exact (gen_fw_derivatives v c alpha ta). Qed.
+Theorem C05_backward_sensitivities_are_derivatives (v : string -> R) (c alpha ta : R) :
+  v "gamma" <> 0 -> 0 < v "rst" -> 0 < v "rast" -> ln (v "rst" / v "rast") + c - alpha + ta <> 0 ->
+  v "tmpb" = Tbw (v "gamma") (v "rst") (v "rast") c alpha ta ->
+  is_derive (fun g => Tbw g (v "rst") (v "rast") c alpha ta) (v "gamma") (de_T_gamma_bw v) /\
+  is_derive (fun s => Tbw (v "gamma") s (v "rast") c alpha ta) (v "rst") (de_T_rst_bw v) /\
+  is_derive (fun a => Tbw (v "gamma") (v "rst") a c alpha ta) (v "rast") (de_T_rast_bw v) /\
+  is_derive (fun d => Tbw (v "gamma") (v "rst") (v "rast") d alpha ta) c (de_T_db_bw v) /\
+  is_derive (fun a => Tbw (v "gamma") (v "rst") (v "rast") c a ta) alpha (de_T_alpha_bw v) /\
+  is_derive (fun t => Tbw (v "gamma") (v "rst") (v "rast") c alpha t) ta (de_T_ta_bw v).
+Proof. exact (gen_bw_derivatives v c alpha ta). Qed.
+Theorem C05_single_ended_sensitivities_are_derivatives (v : string -> R) (c alpha ta : R) :
+  v "gamma" <> 0 -> 0 < v "st" -> 0 < v "ast" -> ln (v "st" / v "ast") + c + alpha + ta <> 0 ->
+  v "tmpf" = Tfw (v "gamma") (v "st") (v "ast") c alpha ta ->
+  is_derive (fun g => Tfw g (v "st") (v "ast") c alpha ta) (v "gamma") (se_T_gamma_fw v) /\
+  is_derive (fun s => Tfw (v "gamma") s (v "ast") c alpha ta) (v "st") (se_T_st_fw v) /\
+  is_derive (fun a => Tfw (v "gamma") (v "st") a c alpha ta) (v "ast") (se_T_ast_fw v) /\
+  is_derive (fun d => Tfw (v "gamma") (v "st") (v "ast") d alpha ta) c (se_T_c_fw v) /\
+  is_derive (fun a => Tfw (v "gamma") (v "st") (v "ast") c a ta) alpha (se_T_alpha_fw v) /\
+  is_derive (fun t => Tfw (v "gamma") (v "st") (v "ast") c alpha t) ta (se_T_ta_fw v).
+Proof. exact (gen_se_derivatives v c alpha ta). Qed.
+Theorem C05_dalpha_sensitivity_is_derivative (v : string -> R) (c dalpha ta : R) :
+  v "gamma" <> 0 -> ln (v "st" / v "ast") + c + dalpha * v "x" + ta <> 0 ->
+  v "tmpf" = Tse (v "gamma") (v "st") (v "ast") c dalpha (v "x") ta ->
+  is_derive (fun d => Tse (v "gamma") (v "st") (v "ast") c d (v "x") ta) dalpha (se_T_dalpha_fw v).
+Proof. exact (gen_se_dalpha v c dalpha ta). Qed.
+End T20.
+
+Print Assumptions C05_tmpf_var_is_propagation. Print Assumptions C05_tmpb_var_is_propagation. Print Assumptions C05_tmpw_var_is_propagation.
+Print Assumptions C05_single_ended_var_is_propagation. Print Assumptions C05_single_ended_fixed_alpha_var_is_propagation.
+Print Assumptions C05_forward_sensitivities_are_derivatives. Print Assumptions C05_backward_sensitivities_are_derivatives.
+Print Assumptions C05_single_ended_sensitivities_are_derivatives. Print Assumptions C05_dalpha_sensitivity_is_derivative.
